@@ -318,7 +318,8 @@ void h_aband_int(void) {
   tbl_abandon_retired_nodes(&T, nodeA(0));
   env_on = 0;
   XV_OBL("tbl.retired.conserve", m_ab_cas_ok_n == 1 && m_ab_store_n == 0 && m_ab_xchg_n == 0 && m_ab_cas_d == nodeA(0) && XV_IS_RELEASE(m_ab_cas_o));
-  XV_OBL("tbl.retired.conserve", m_ab_cas_lastnext == m_ab_cas_e && chainA_intact() && nodeA(in_na - 1)->next == m_ab_cas_e);
+  /* at the successful CAS the tail of the chain points to exactly the head value that the CAS replaced (whatever other threads pushed or adopted meanwhile) */
+  XV_OBL("tbl.abandon.commit", m_ab_cas_lastnext == m_ab_cas_e && chainA_intact() && nodeA(in_na - 1)->next == m_ab_cas_e);
   XV_OBL("tbl.retired.conserve", j == in_na - 1 || npool[j].next == nsnap[j]);
   XV_CANARY("aband_int.done");
   if (m_ab_cas_n > 1) XV_CANARY("aband_int.retried");
